@@ -247,7 +247,7 @@ pub fn serve(dispatch: fn(&str, &str) -> Option<(CaseFn, Option<fn(&str) -> Stri
             Ok((no, msg)) => {
                 if msg == "START" {
                     // wait for the result of this case with a watchdog
-                    match rx.recv_timeout(std::time::Duration::from_secs(20)) {
+                    match rx.recv_timeout(std::time::Duration::from_secs(6)) {
                         Ok((no2, res)) => {
                             use std::io::Write;
                             let _ = writeln!(out.lock(), "{} {}", no2, res);
